@@ -52,6 +52,8 @@ def describe(cfg, **extra):
 
 
 def execute(cfg, budgets, **kw):
+    if tracer.TIMEOUTS >= 3:      # library code stopped terminating: do not burn the time budget on further runs
+        return tracer.Trace(), None, "skipped: earlier runs hit the watchdog"
     return tracer.run_traced(cfg["name"], cfg["spec"], cfg["seed"], cfg["size"], budgets, evaluator=cfg["evaluator"],
                              explicit=cfg["explicit"], extreme=cfg["extreme"], op_rng=random.Random(cfg["op_seed"]),
                              injected=cfg["injected"], extra_kw=dict(cfg.get("extra") or {}), **kw)
